@@ -1532,3 +1532,55 @@ Proof.
   - unfold stale_shortcut_state. apply lr_read; [|right; vm_compute; discriminate]. apply lr_base. demo_reach.
   - apply check_complete. vm_compute. reflexivity.
 Qed.
+
+(* ------------------------------------------------------------------ the barrier's answer must belong to the request *)
+(* t_local answers the waiting request q behind ITS OWN read index l_ci q (the ghost pairing of a read-index answer
+   with the request that asked for it: readIndexLoop compares the answer's request context with the id of the
+   current round). If the answer of ANOTHER, earlier round of the same replica is accepted instead (seeded change
+   C04-d2: `done = true` for whatever read state arrives), the protocol has a non-linearizable history: *)
+Definition do_local_head_any (g : gstate) (ci_used : nat) : gstate :=
+  match g_wait g with
+  | q :: l2 =>
+      let rs := g_rep g (l_rep q) in
+      match nth_error (g_hist g) (l_id q) with
+      | Some h =>
+          match shortcut (r_st rs) (h_op h) with
+          | Some res =>
+              if Nat.leb ci_used (r_applied rs) then
+                mkG (N.succ (g_clock g)) (set_ret (l_id q) (g_clock g, res) (g_hist g))
+                    (g_inflight g) (g_log g) (g_rep g) l2 (g_ldone g ++ [mkD (l_id q) (r_applied rs) false])
+              else g
+          | None => g
+          end
+      | None => g
+      end
+  | [] => g
+  end.
+
+Inductive reachable_any_answer : gstate -> Prop :=
+| aa_base : forall g, reachable demo_apply g -> reachable_any_answer g
+| aa_step : forall g q l2 q', reachable_any_answer g -> g_wait g = q :: l2 ->
+            In q' (g_wait g) -> l_rep q' = l_rep q ->          (* the answer of some round of the same replica *)
+            reachable_any_answer (do_local_head_any g (l_ci q')).
+
+(* SADD (A) reaches replica 1 while the log is empty: its read-index round asks for index 0 and stays unanswered.
+   LPUSH 7 through replica 0 is committed, applied and acknowledged by replica 0. LPOP (B) reaches replica 1: its
+   round asks for index 1. Replica 1 has applied nothing. Accepting A's answer (index 0) for B answers nil. *)
+Definition any_answer_state : gstate :=
+  do_local_head_any
+    (do_barrier (do_apply (do_commit_head (do_invoke (do_barrier g0 1 (OSAdd 1)) 0 (OLPush 7))) 0) 1 OLPop) 0.
+
+Lemma barrier_any_answer_refuted :
+  reachable_any_answer any_answer_state /\ ~ linearizable (g_hist any_answer_state).
+Proof.
+  split.
+  - unfold any_answer_state.
+    eapply (aa_step _ _ _ (mkL 0 1 0)); [apply aa_base; demo_reach|reflexivity|right; left; reflexivity|reflexivity].
+  - apply check_complete. vm_compute. reflexivity.
+Qed.
+
+(* with the request's own read index the same schedule cannot answer before replica 1 has applied the LPUSH *)
+Lemma barrier_own_answer_blocks :
+  do_local_head (do_barrier (do_apply (do_commit_head (do_invoke (do_barrier g0 1 (OSAdd 1)) 0 (OLPush 7))) 0) 1 OLPop)
+  = do_barrier (do_apply (do_commit_head (do_invoke (do_barrier g0 1 (OSAdd 1)) 0 (OLPush 7))) 0) 1 OLPop.
+Proof. vm_compute. reflexivity. Qed.
